@@ -37,16 +37,21 @@ Theorem C17_envmap_agrees_on_scoped_names : forall s k v, Forall uniq (scopes s)
   assocb k (envmap s) = lookup s k.
 Proof. exact envmap_agrees_scopes. Qed.
 Print Assumptions C17_envmap_agrees_on_scoped_names.
-(* root struct: every exported field is in the environment under its json name (Go name when
-   untagged), holding the field's value (nested structs as maps); nothing else is *)
-Theorem C17_envmap_root_fields : forall fs f, env_keys_unique fs -> In f fs -> f_exported f = true ->
-  assocb (env_key f) (root_fields (VStruct fs)) = Some (conv (f_val f)).
-Proof. exact root_fields_struct. Qed.
-Print Assumptions C17_envmap_root_fields.
-Theorem C17_envmap_root_only_exported : forall fs k v, assocb k (root_fields (VStruct fs)) = Some v ->
-  exists f, In f fs /\ f_exported f = true /\ env_key f = k.
-Proof. exact root_fields_only_env_keys. Qed.
-Print Assumptions C17_envmap_root_only_exported.
+(* root data: the environment and Lookup address the same field of a root struct under the
+   same names (json name, or Go name), and hold the same value up to the documented
+   conversion of nested structs to maps; a root map contributes exactly its keys *)
+Theorem C17_envmap_agrees_struct_root : forall s k fs,
+  Forall uniq (scopes s) -> root s = VStruct fs -> wf_struct fs -> k <> [] ->
+  assocb k (envmap s) = match look (scopes s) k with Some v => Some v | None => option_map conv (lookup s k) end.
+Proof. exact envmap_agrees_struct_root. Qed.
+Print Assumptions C17_envmap_agrees_struct_root.
+Theorem C17_root_struct_agrees : forall fs k, k <> [] -> wf_struct fs ->
+  assocb k (root_fields (VStruct fs)) = option_map conv (resolve_struct fs k).
+Proof. exact root_struct_agrees. Qed.
+Print Assumptions C17_root_struct_agrees.
+Theorem C17_root_map_agrees : forall m k, k <> [] -> assocb k (root_fields (VMap m)) = resolve_value (VMap m) k.
+Proof. exact root_map_agrees. Qed.
+Print Assumptions C17_root_map_agrees.
 
 (* 5. a copy is independent of its original: an operation addressed to one stack of a
       history leaves every other stack as it was *)
